@@ -39,6 +39,11 @@
 #include "stir/scatter/SingleScatterSimulation.h"
 #include "stir/ProjDataInfoCylindricalNoArcCorr.h"
 #include "stir/ProjDataInfoGenericNoArcCorr.h"
+#include "stir/ProjDataInfoSubsetByView.h"
+#include <functional>
+#include "stir/TrivialDataSymmetriesForViewSegmentNumbers.h"
+#include "stir/RelatedViewgrams.h"
+#include "stir/Sinogram.h"
 #include "stir/DetectionPositionPair.h"
 #include <atomic>
 #include <chrono>
@@ -171,6 +176,27 @@ typedef DiscretisedDensity<3, float> target_type;
 // to the default it will be reset to); the rewriting is counted and switched off by VERIF_NO_EXCLUDE=1.
 const char* const SIG_E1 = "C18:backprojector:more-threads-than-at-set_up";
 //! set to true once the repair (work/fixes/C18_ext/01_*.diff) is committed in /repo: the class is then part of the normal search
+// ---- known finding E2 (DESIGN 12.9; found on /repo 66621e8da) -------------------------------------------------------------
+// The detector-pair tables of ProjDataInfoCylindricalNoArcCorr (uncompressed_view_tangpos_to_det1det2,
+// det1det2_to_uncompressed_view_tangpos; ProjDataInfoGenericNoArcCorr has the same members) are built on first use under
+// critical(PROJDATAINFOCYLINDRICALNOARCCORR_VIEWTANGPOS_TO_DETS / _DETS_TO_VIEWTANGPOS), but the IMPLICIT copy constructor
+// (clone(), create_shared_clone(), get_empty_viewgram / sinogram / related_viewgrams, ProjDataInfoSubsetByView) reads them without
+// the lock: a copy made while another thread builds them sees a vector in the middle of grow() (range assertions of
+// VectorWithOffset in this build; reads of freed memory / a half-built table in a Release build).  Same pattern as the repaired
+// ring-difference tables (66621e8da), which that repair left alone ("No failure could be provoked there").
+// Exclusion (narrow, by construction): in the rounds / look-ups in which threads COPY the object, the harness builds the
+// detector-pair tables with one thread before the parallel region -- only the ring-difference tables then have their first use
+// next to the copies.  Counted in excluded_known; VERIF_NO_EXCLUDE=1 switches it off; the probe carries "prebuild": false.
+const char* const SIG_E2 = "C18:detector-pair-tables:copied-during-first-use";
+bool
+e2_exclusion_on()
+{
+  static const bool on = []() {
+    const char* e = std::getenv("VERIF_NO_EXCLUDE");
+    return !(e && *e && std::string(e) != "0");
+  }();
+  return on;
+}
 const bool E1_REPAIRED = true;
 bool
 exclusions_on()
@@ -385,6 +411,10 @@ make_world(const json& c, const Settings& st, const std::string& dir)
   World w;
   w.sc = vg::make_scanner(c["scanner"]);
   w.pdi = vg::make_pdi(w.sc, c["pdi"]);
+  // "inval" 8: a REAL reduction of the segment range of the data's ProjDataInfo (as test_proj_data_info_subsets does), before
+  // anything is made from it; the tables stay invalid until the first workload needs them (re-armed again before it)
+  if (c.value("inval", 0) == 8 && w.pdi->get_num_segments() >= 3)
+    w.pdi->reduce_segment_range(w.pdi->get_min_segment_num() + 1, w.pdi->get_max_segment_num() - 1);
   w.image = vg::make_image(c["image"], *w.pdi, 7);
   vg::fill_random(*w.image, c["dseed"].get<uint64_t>(), 0.5, 2.);
   w.image2.reset(w.image->clone());
@@ -566,11 +596,131 @@ site_hit_by_two()
 //! loop of the harness.  3 numbers per pair: bin code (integer), number of detector pairs of the bin + a position-
 //! weighted checksum of their coordinates (multiples of 1e-6), m + 10 tan(theta).  Every number is computed by ONE
 //! thread from the (shared, lazily built) tables, so the comparison of this workload is exact.
+
+// ---- invalidating setters and concurrent copies (DESIGN 12.9; /repo 66621e8da) ------------------------------------------
+//! One of the setters that set ProjDataInfoCylindrical::ring_diff_arrays_computed = false (reduce_segment_range,
+//! set_min|max_axial_pos_num, set_num_axial_poss_per_segment, set_min|max_ring_difference, set_ring_spacing), called with the
+//! value the object already has: the geometry stays what set_up accepted, the lazily built ring-difference tables have to be
+//! rebuilt by the next const call that needs them -- which then happens inside the parallel region of the next workload, next
+//! to threads that COPY the object (ProjData::get_empty_related_viewgrams -> ProjDataInfo::get_empty_viewgram -> clone()).
+//! The ring-spacing / ring-difference setters are used on ProjDataInfoCylindricalNoArcCorr only (blocks data take their
+//! coordinates from the crystal map); set_num_axial_poss_per_segment only when every segment starts at axial position 0
+//! (it resets the minima to 0).
+const char*
+invalidate_tables(ProjDataInfo& pdi, int kind, int b)
+{
+  ProjDataInfoCylindricalNoArcCorr* cyl = dynamic_cast<ProjDataInfoCylindricalNoArcCorr*>(&pdi);
+  const int seg = pdi.get_min_segment_num() + std::abs(b) % pdi.get_num_segments();
+  switch (std::abs(kind) % 7)
+    {
+    case 1:
+      pdi.set_min_axial_pos_num(pdi.get_min_axial_pos_num(seg), seg);
+      return "set_min_axial_pos_num(same)";
+    case 2:
+      pdi.set_max_axial_pos_num(pdi.get_max_axial_pos_num(seg), seg);
+      return "set_max_axial_pos_num(same)";
+    case 3:
+      {
+        bool zero_based = true;
+        VectorWithOffset<int> n(pdi.get_min_segment_num(), pdi.get_max_segment_num());
+        for (int sg = pdi.get_min_segment_num(); sg <= pdi.get_max_segment_num(); ++sg)
+          {
+            n[sg] = pdi.get_num_axial_poss(sg);
+            zero_based = zero_based && pdi.get_min_axial_pos_num(sg) == 0;
+          }
+        if (zero_based)
+          {
+            pdi.set_num_axial_poss_per_segment(n);
+            return "set_num_axial_poss_per_segment(same)";
+          }
+        break;
+      }
+    case 4:
+      if (cyl)
+        {
+          cyl->set_ring_spacing(cyl->get_ring_spacing());
+          return "set_ring_spacing(same)";
+        }
+      break;
+    case 5:
+      if (cyl)
+        {
+          cyl->set_min_ring_difference(cyl->get_min_ring_difference(seg), seg);
+          return "set_min_ring_difference(same)";
+        }
+      break;
+    case 6:
+      if (cyl)
+        {
+          cyl->set_max_ring_difference(cyl->get_max_ring_difference(seg), seg);
+          return "set_max_ring_difference(same)";
+        }
+      break;
+    default:
+      break;
+    }
+  pdi.reduce_segment_range(pdi.get_min_segment_num(), pdi.get_max_segment_num());
+  return "reduce_segment_range(same)";
+}
+
+//! copies of a ProjDataInfo made by the threads of query_tables() WHILE other threads make the first table-using calls
+struct CopyPlan
+{
+  shared_ptr<ProjDataInfo> shared;               // the object under test (what p points to)
+  shared_ptr<ProjDataInMemory> holder;           // projection data holding it (empty viewgrams / sinograms clone it)
+  uint64_t seed = 0;
+  static const int SLOTS = 8;
+  long at[SLOTS] = { 1, 2, 3, 5, 8, 13, 21, 34 }; // loop iterations that copy (the first iterations run at the same time)
+  shared_ptr<const ProjDataInfo> copies[SLOTS];
+  static const char* kind_name(int k)
+  {
+    static const char* n[] = { "clone()", "create_shared_clone()", "get_empty_viewgram", "get_empty_sinogram", "get_empty_related_viewgrams",
+                               "ProjDataInfoSubsetByView(object, views)", "copy constructor" };
+    return n[k % 7];
+  }
+  int kind(int slot) const { return int((seed >> (3 * slot)) % 7); }
+  template <class PDI>
+  void copy(int slot, const PDI* p)
+  {
+    const int seg = shared->get_min_segment_num() + slot % shared->get_num_segments();
+    const int view = shared->get_min_view_num() + slot % shared->get_num_views();
+    switch (kind(slot))
+      {
+      case 0:
+        copies[slot].reset(p->clone());
+        break;
+      case 1:
+        copies[slot] = p->create_shared_clone();
+        break;
+      case 2:
+        copies[slot] = holder->get_empty_viewgram(view, seg).get_proj_data_info_sptr();
+        break;
+      case 3:
+        copies[slot] = holder->get_empty_sinogram(shared->get_min_axial_pos_num(seg), seg).get_proj_data_info_sptr();
+        break;
+      case 4:
+        {
+          const shared_ptr<DataSymmetriesForViewSegmentNumbers> sym(new TrivialDataSymmetriesForViewSegmentNumbers);
+          copies[slot] = holder->get_empty_related_viewgrams(ViewSegmentNumbers(view, seg), sym).get_proj_data_info_sptr();
+          break;
+        }
+      case 5:
+        {
+          const ProjDataInfoSubsetByView sub(shared, std::vector<int>(1, view));
+          copies[slot] = sub.get_original_proj_data_info_sptr();
+          break;
+        }
+      default:
+        copies[slot].reset(new PDI(*p));
+      }
+  }
+};
+
 //! PDI = ProjDataInfoCylindricalNoArcCorr or ProjDataInfoGenericNoArcCorr (BlocksOnCylindrical / Generic scanners: the same
 //! public functions, other lazily built tables: ProjDataInfoGenericNoArcCorr.inl, schedule points 3-6 and 16-19)
 template <class PDI>
 void
-query_tables(const PDI* p, const Scanner& sc, bool tables_first, std::vector<double>& out)
+query_tables(const PDI* p, const Scanner& sc, bool tables_first, std::vector<double>& out, CopyPlan* plan = nullptr)
 {
   const int ndet = sc.get_num_detectors_per_ring(), rings = sc.get_num_rings();
   const long n = long(ndet) * ndet * rings * rings;
@@ -582,6 +732,10 @@ query_tables(const PDI* p, const Scanner& sc, bool tables_first, std::vector<dou
     {
       const int d1 = int(i % ndet), d2 = int((i / ndet) % ndet), r1 = int((i / (long(ndet) * ndet)) % rings),
                 r2 = int(i / (long(ndet) * ndet * rings));
+      if (plan)
+        for (int slot = 0; slot < CopyPlan::SLOTS; ++slot)
+          if (plan->at[slot] == i)
+            plan->copy(slot, p);
       if (d1 == d2)
         continue;
       Bin b;
@@ -606,6 +760,160 @@ query_tables(const PDI* p, const Scanner& sc, bool tables_first, std::vector<dou
       out[std::size_t(i) * 3 + 1] = npairs;
       out[std::size_t(i) * 3 + 2] = m;
     }
+  if (plan)
+    { // every copy has to answer ALL table queries like the object itself (and like the copies of the single-thread run)
+      for (int slot = 0; slot < CopyPlan::SLOTS; ++slot)
+        if (plan->copies[slot])
+          {
+            const PDI* cp = dynamic_cast<const PDI*>(plan->copies[slot].get());
+            if (!cp)
+              throw std::logic_error("harness: a copy of the ProjDataInfo has another type");
+            std::vector<double> tmp;
+            query_tables(cp, sc, slot % 2 == 0, tmp);
+            if (tmp.size() != out.size() || !std::equal(tmp.begin(), tmp.end(), out.begin()))
+              stats().count(vf::cat("copy made by ", CopyPlan::kind_name(plan->kind(slot)), " answers differently from the object"));
+            out.push_back(double(tmp.size()));
+            out.insert(out.end(), tmp.begin(), tmp.end());
+            stats().count(vf::cat("concurrent copy checked: ", CopyPlan::kind_name(plan->kind(slot))));
+          }
+    }
+}
+
+
+//! (12.9) The race of /repo 66621e8da stated directly.  Every round: a NEW object from the factory (its detector-pair tables are
+//! not built), an invalidating setter (the ring-difference tables have to be rebuilt), then a parallel region in which, behind a
+//! barrier, the even threads make the first table-using const calls (get_m, ring pairs, detector pair <-> bin) while the odd
+//! threads COPY the object in one of the seven ways of CopyPlan.  Afterwards (one thread) every copy has to give the signature of
+//! the object itself (all ring-pair lists, m, ring difference -> segment, detector pair -> bin for ring 0); a copy that differs
+//! makes the run throw.  out gets the signature of the object per round (the same with one thread).  Perturbation is switched
+//! off in the odd rounds (a delay at the top of the locked initialisation lets all copies finish before the rebuild starts).
+template <class PDI>
+double
+table_signature(const PDI* p, const Scanner& sc)
+{
+  double sig = 0;
+  for (int seg = p->get_min_segment_num(); seg <= p->get_max_segment_num(); ++seg)
+    for (int ax = p->get_min_axial_pos_num(seg); ax <= p->get_max_axial_pos_num(seg); ++ax)
+      {
+        const ProjDataInfoCylindrical::RingNumPairs& rp = p->get_all_ring_pairs_for_segment_axial_pos_num(seg, ax);
+        double v = double(rp.size());
+        for (auto& pr : rp)
+          v += 0.01 * pr.first + 0.0001 * pr.second;
+        sig += (seg * 131 + ax * 7 + 1) * (v + p->get_m(Bin(seg, 0, ax, 0)));
+      }
+  for (int rd = -(sc.get_num_rings() - 1); rd <= sc.get_num_rings() - 1; ++rd)
+    {
+      int seg = 0;
+      if (p->get_segment_num_for_ring_difference(seg, rd) == Succeeded::yes)
+        sig += (rd + 100) * (seg + 50);
+    }
+  const int ndet = sc.get_num_detectors_per_ring();
+  for (int d1 = 0; d1 < ndet; ++d1)
+    for (int d2 = 0; d2 < ndet; ++d2)
+      {
+        Bin b;
+        if (d1 != d2 && p->get_bin_for_det_pos_pair(b, DetectionPositionPair<>(DetectionPosition<>(d1, 0), DetectionPosition<>(d2, 0), 0)) == Succeeded::yes)
+          sig += (d1 * 37 + d2 + 1) * (b.view_num() * 100 + b.tangential_pos_num());
+      }
+  return sig;
+}
+
+//! E2 exclusion: first use of the two detector-pair tables by one thread, before threads copy the object
+template <class PDI>
+void
+prebuild_detector_pair_tables(const PDI* p)
+{
+  if (!e2_exclusion_on())
+    return;
+  Bin b;
+  p->get_bin_for_det_pos_pair(b, DetectionPositionPair<>(DetectionPosition<>(0, 0), DetectionPosition<>(1, 0), 0));
+  std::vector<DetectionPositionPair<>> dps; // (get_det_pos_pair_for_bin asserts "view mashing factor == 1"; this one works for all data)
+  p->get_all_det_pos_pairs_for_bin(dps, Bin(0, p->get_min_view_num(), p->get_min_axial_pos_num(0), 0));
+  stats().count(std::string("excluded:") + SIG_E2);
+  stats().excluded_known++;
+}
+
+template <class PDI>
+void
+race_rounds(const std::function<shared_ptr<ProjDataInfo>()>& factory, const Scanner& sc, int rounds, uint64_t seed, std::vector<double>& out)
+{
+  const bool was_on = g_perturb.enabled.load();
+  for (int r = 0; r < rounds; ++r)
+    {
+      CopyPlan plan;
+      plan.shared = factory();
+      const PDI* p = dynamic_cast<const PDI*>(plan.shared.get());
+      if (!p)
+        throw std::logic_error("harness: race_rounds on another ProjDataInfo type");
+      plan.seed = seed + uint64_t(r) * 0x9e3779b97f4a7c15ULL;
+      plan.holder.reset(new ProjDataInMemory(shared_ptr<ExamInfo>(new ExamInfo(ImagingModality::PT)), plan.shared, false));
+      prebuild_detector_pair_tables(p);
+      invalidate_tables(*plan.shared, int((seed >> 7) % 7) + r, r);
+      g_perturb.enabled.store(was_on && r % 2 == 0);
+      const int seg = p->get_min_segment_num() + r % p->get_num_segments();
+      std::vector<shared_ptr<const ProjDataInfo>> copies(64);
+#ifdef _OPENMP
+#  pragma omp parallel
+#endif
+      {
+#ifdef _OPENMP
+        const int t = omp_get_thread_num();
+#  pragma omp barrier
+#else
+        const int t = 0;
+#endif
+        if (t % 2 == 0)
+          { // first table-using calls
+            Bin b;
+            volatile double sink = p->get_m(Bin(seg, 0, p->get_min_axial_pos_num(seg), 0));
+            sink = sink + double(p->get_all_ring_pairs_for_segment_axial_pos_num(seg, p->get_max_axial_pos_num(seg)).size());
+            if (p->get_bin_for_det_pos_pair(b, DetectionPositionPair<>(DetectionPosition<>(0, 0), DetectionPosition<>(1 + t % 3, 0), 0)) == Succeeded::yes)
+              {
+                std::vector<DetectionPositionPair<>> dps;
+                p->get_all_det_pos_pairs_for_bin(dps, b);
+                sink = sink + double(dps.size());
+              }
+          }
+        if (t % 2 == 1 || t == 0)
+          { // (thread 0 copies after its look-ups, so that the single-thread run makes a copy as well)
+            CopyPlan mine = plan; // (own slots: threads t and t + 8 would share one)
+            // copies in a row (about 0.1 ms): the release of the barrier is spread over tens of microseconds, the rebuild of the
+            // tables of a small geometry takes about one -- a single copy would hardly ever meet it
+            for (int again = 0; again < (t == 0 ? 1 : 150); ++again)
+              mine.copy(t % CopyPlan::SLOTS, p);
+            if (t < 64)
+              copies[std::size_t(t)] = mine.copies[t % CopyPlan::SLOTS];
+          }
+      }
+      g_perturb.enabled.store(was_on);
+      const double sig = table_signature(p, sc);
+      for (std::size_t t = 0; t < copies.size(); ++t)
+        if (copies[t])
+          {
+            const PDI* cp = dynamic_cast<const PDI*>(copies[t].get());
+            if (!cp)
+              throw std::logic_error("harness: a copy of the ProjDataInfo has another type");
+            stats().count("race round: copy made concurrently with the first look-ups checked");
+            if (table_signature(cp, sc) != sig)
+              throw std::runtime_error(cat("a copy made by ", CopyPlan::kind_name(plan.kind(int(t) % CopyPlan::SLOTS)), " (thread ", t, ", round ", r,
+                                           ") while other threads made the first look-ups answers differently from the object"));
+          }
+      out.push_back(sig);
+    }
+}
+
+//! query_tables with threads that copy the object concurrently with the first table-using calls
+template <class PDI>
+void
+query_tables_with_copies(const shared_ptr<ProjDataInfo>& pdi, const PDI* p, const Scanner& sc, bool tables_first, uint64_t seed, std::vector<double>& out)
+{
+  CopyPlan plan;
+  plan.shared = pdi;
+  plan.seed = seed;
+  // (constructed before the tables are needed: the constructor only asks for sizes)
+  plan.holder.reset(new ProjDataInMemory(shared_ptr<ExamInfo>(new ExamInfo(ImagingModality::PT)), pdi, false));
+  prebuild_detector_pair_tables(p);
+  query_tables(p, sc, tables_first, out, &plan);
 }
 
 // ---- construction of the objects of the workloads -------------------------------------------------------------
@@ -890,9 +1198,19 @@ run_workload(const json& c, int threads, bool perturb, uint64_t pseed, const std
   std::vector<double> out;
   try
     {
+      // (12.9) "inval" > 0: an invalidating setter on the ProjDataInfo that data, projectors and matrix SHARE, directly before
+      // the multi-threaded workload (inval_first: before the set_up, the order of the library's own test)
+      const int inval = c.value("inval", 0);
+      const bool inval_first = c.value("inval_first", false);
+      auto invalidate = [&](bool before_set_up) {
+        if (inval > 0 && workload <= 5 && (before_set_up == inval_first || workload >= 2))
+          invalidate_tables(*w.pdi, inval == 8 ? 0 : inval - 1, c["subset"].get<int>());
+      };
       if (workload == 0)
         { // forward projection of a whole data set
+          invalidate(true);
           w.pair->set_up(w.pdi, w.image);
+          invalidate(false);
           const shared_ptr<ProjData> res = make_forward_output(c.value("fwd_out", 0), w.data->get_exam_info_sptr(), w.pdi, dir,
                                                                (c["dseed"].get<uint64_t>() & 2) != 0, "fwd.s");
           w.pair->get_forward_projector_sptr()->forward_project(*res, *w.image);
@@ -904,12 +1222,36 @@ run_workload(const json& c, int threads, bool perturb, uint64_t pseed, const std
           const shared_ptr<ProjDataInfo> fresh_pdi = vg::make_pdi(w.sc, c["pdi"]);
           // the constructor builds the ring-difference tables eagerly; every geometry setter re-arms their lazy
           // construction (documented in ProjDataInfoCylindrical.h), e.g. after set_ring_spacing()
-          if (ProjDataInfoCylindrical* pc = dynamic_cast<ProjDataInfoCylindricalNoArcCorr*>(fresh_pdi.get()))
+          if (c.value("inval", 0) == 8 && fresh_pdi->get_num_segments() >= 3)
+            fresh_pdi->reduce_segment_range(fresh_pdi->get_min_segment_num() + 1, fresh_pdi->get_max_segment_num() - 1);
+          if (c.value("inval", 0) > 0)
+            invalidate_tables(*fresh_pdi, c.value("inval", 0) == 8 ? 0 : c.value("inval", 0) - 1, c["subset"].get<int>());
+          else if (ProjDataInfoCylindrical* pc = dynamic_cast<ProjDataInfoCylindricalNoArcCorr*>(fresh_pdi.get()))
             if (c["subset"].get<int>() % 3 != 0)
               pc->set_ring_spacing(pc->get_ring_spacing());
+          const bool copies = c.value("copies", false); // threads copy the object while others make the first table-using calls
+          const uint64_t cseed = c["dseed"].get<uint64_t>() ^ 0xc0b1e5ULL;
           const ProjDataInfoCylindricalNoArcCorr* p = dynamic_cast<const ProjDataInfoCylindricalNoArcCorr*>(fresh_pdi.get());
           const ProjDataInfoGenericNoArcCorr* pg = dynamic_cast<const ProjDataInfoGenericNoArcCorr*>(fresh_pdi.get());
-          if (p)
+          if (copies)
+            {
+              const int inval_v = c.value("inval", 0);
+              const std::function<shared_ptr<ProjDataInfo>()> factory = [&]() {
+                shared_ptr<ProjDataInfo> n = vg::make_pdi(w.sc, c["pdi"]);
+                if (inval_v == 8 && n->get_num_segments() >= 3)
+                  n->reduce_segment_range(n->get_min_segment_num() + 1, n->get_max_segment_num() - 1);
+                return n;
+              };
+              if (p)
+                race_rounds<ProjDataInfoCylindricalNoArcCorr>(factory, *w.sc, c.value("race_rounds", 0), cseed, out);
+              else if (pg)
+                race_rounds<ProjDataInfoGenericNoArcCorr>(factory, *w.sc, c.value("race_rounds", 0), cseed, out);
+            }
+          if (p && copies)
+            query_tables_with_copies(fresh_pdi, p, *w.sc, c["subset"].get<int>() % 2 == 0, cseed, out);
+          else if (pg && copies)
+            query_tables_with_copies(fresh_pdi, pg, *w.sc, c["subset"].get<int>() % 2 == 0, cseed, out);
+          else if (p)
             query_tables(p, *w.sc, c["subset"].get<int>() % 2 == 0, out);
           else if (pg) // BlocksOnCylindrical scanner: the tables of ProjDataInfoGenericNoArcCorr are built inside the loop
             query_tables(pg, *w.sc, c["subset"].get<int>() % 2 == 0, out);
@@ -918,7 +1260,9 @@ run_workload(const json& c, int threads, bool perturb, uint64_t pseed, const std
         }
       else if (workload == 1)
         { // back projection of a whole data set
+          invalidate(true);
           w.pair->set_up(w.pdi, w.image);
+          invalidate(false);
           shared_ptr<target_type> res(w.image->get_empty_copy());
           w.pair->get_back_projector_sptr()->back_project(*res, *w.data);
           append(out, *res);
@@ -949,11 +1293,13 @@ run_workload(const json& c, int threads, bool perturb, uint64_t pseed, const std
           shared_ptr<PDObj> objp = make_pd_objective(w, st);
           PDObj& obj = *objp;
           shared_ptr<target_type> target(w.image->clone());
+          invalidate(true); // the sensitivities (parallel back projection inside set_up) are the first use
           if (obj.set_up(target) != Succeeded::yes)
             {
               perturb_off();
               throw std::runtime_error("objective function set_up failed");
             }
+          invalidate(false);
           const int subset = c["subset"].get<int>() % obj.get_num_subsets();
           if (workload == 2)
             out.push_back(obj.compute_objective_function(*target));
@@ -1098,6 +1444,10 @@ struct FamProjectors : Family
     SET_SYM,  // other (or the same) symmetry switches + set_up: the matrix rebuilds its symmetries and drops the cache
     SET_GEOM, // set_up for the other (or the same) image geometry: matrix cache, cache locks and the per-thread images
               // of the back projector (created lazily, one per thread that did some work) live through it
+    INVAL_FWD,  // an invalidating setter on the shared ProjDataInfo (same value), then at once a forward projection
+    INVAL_BACK, // ... a back projection
+    SUBSET_FWD, // the scenario of test_proj_data_info_subsets: ProjDataInfoSubsetByView of the data's info and a clone of it,
+                // reduce_segment_range on both, projectors set up for them, forward projection of the subset and of the full data
     N
   };
   World w;
@@ -1111,7 +1461,7 @@ struct FamProjectors : Family
   void set_up_pair() { w.pair->set_up(w.pdi, st.geom ? w.imageB : w.image); }
   const std::vector<int>& weights() const override
   {
-    static const std::vector<int> w{ FWD, BACK, FWD2, BACK2, FWD, BACK, BACK, FWD, CLEAR_CACHE, SET_UP, SET_CACHE, SET_LORS, SET_SYM, SET_GEOM, SET_GEOM, CLEAR_CACHE };
+    static const std::vector<int> w{ FWD, BACK, FWD2, BACK2, FWD, BACK, INVAL_BACK, INVAL_FWD, CLEAR_CACHE, SET_UP, SET_CACHE, SET_LORS, SET_SYM, SET_GEOM, SET_GEOM, CLEAR_CACHE, INVAL_FWD, SUBSET_FWD, INVAL_FWD };
     return w;
   }
   FamProjectors(const json& c, const std::string& dir_v, const Settings* o)
@@ -1128,9 +1478,12 @@ struct FamProjectors : Family
       {
       case FWD:
       case FWD2:
+      case INVAL_FWD:
+      case SUBSET_FWD:
         return F_RESULT;
       case BACK:
       case BACK2:
+      case INVAL_BACK:
         return F_RESULT | F_BP;
       case CLEAR_CACHE:
         return 0;
@@ -1141,17 +1494,55 @@ struct FamProjectors : Family
   const char* name(int code) const override
   {
     static const char* n[] = { "forward_project", "back_project", "forward_project", "back_project", "clear_cache", "set_up", "cache mode + set_up", "num_tangential_LORs + set_up",
-                               "symmetry switches + set_up", "set_up for the other image geometry" };
+                               "symmetry switches + set_up", "set_up for the other image geometry",
+                               "invalidating setter on the shared ProjDataInfo + forward_project", "invalidating setter on the shared ProjDataInfo + back_project",
+                               "subset by view + reduce_segment_range + set_up + forward_project (subset and full)" };
     return n[code];
   }
   void exec(int code, int a, int b, std::vector<double>& out) override
   {
     int subset = 0;
     const int nsub = subset_choice(w.pdi->get_num_views(), b, subset)[0];
+    if (code == INVAL_FWD || code == INVAL_BACK)
+      stats().count(cat("invalidating setter before a projection: ", invalidate_tables(*w.pdi, b / 64, b)));
     switch (code)
       {
+      case SUBSET_FWD:
+        {
+          // views of the subset: every k-th view from an offset (k = 1: all views)
+          const int nv = w.pdi->get_num_views();
+          const int k = 1 + (a % 4) % nv;
+          std::vector<int> views;
+          for (int v = (a / 4) % k; v < nv; v += k)
+            views.push_back(v);
+          const bool real_reduction = (a / 16) % 2 == 0 && w.pdi->get_num_segments() >= 3;
+          // Seen, outside the statement (fails with ONE thread as well): for a BlocksOnCylindrical scanner
+          // DataSymmetriesForBins_PET_CartesianGrid::find_basic_bin static_casts the ProjDataInfo to ProjDataInfoBlocksOnCylindrical,
+          // which a ProjDataInfoSubsetByView is not (range assertion in get_min_ring_difference): blocks data do the "full" half only.
+          const bool blocks = dynamic_cast<const ProjDataInfoGenericNoArcCorr*>(w.pdi.get()) != nullptr;
+          if (blocks)
+            stats().count("subset-by-view step on blocks data: only the full-data half (subset + blocks symmetries: not a thread matter)");
+          for (int which = blocks ? 1 : 0; which < 2; ++which)
+            {
+              shared_ptr<ProjDataInfo> info(which == 0 ? static_cast<ProjDataInfo*>(new ProjDataInfoSubsetByView(w.pdi, views)) : w.pdi->clone());
+              if (real_reduction)
+                info->reduce_segment_range(info->get_min_segment_num() + 1, info->get_max_segment_num() - 1);
+              else
+                info->reduce_segment_range(info->get_min_segment_num(), info->get_max_segment_num());
+              ProjDataInMemory res(w.data->get_exam_info_sptr(), info);
+              Settings s2 = st;
+              s2.sym = st.sym & 16; // view / s / segment symmetries need the full set of views (the library test uses regular subsets)
+              shared_ptr<ProjMatrixByBinUsingRayTracing> m2 = make_matrix(json(), s2);
+              ProjectorByBinPairUsingProjMatrixByBin pair2(m2);
+              pair2.set_up(res.get_proj_data_info_sptr(), st.geom ? w.imageB : w.image);
+              pair2.get_forward_projector_sptr()->forward_project(res, im(a % 2));
+              append(out, res);
+            }
+          break;
+        }
       case FWD:
       case FWD2:
+      case INVAL_FWD:
         {
           // (a / 2) % 4: 0, 1 fresh in-memory output (all that saved cases use), 2 pre-filled in-memory output, 3 a pre-filled file
           const int kind = (a / 2) % 4 <= 1 ? 0 : (a / 2) % 4 - 1;
@@ -1164,6 +1555,7 @@ struct FamProjectors : Family
         }
       case BACK:
       case BACK2:
+      case INVAL_BACK:
         {
           shared_ptr<target_type> res(im(0).get_empty_copy());
           w.pair->get_back_projector_sptr()->back_project(*res, *w.data, subset, nsub);
@@ -1222,6 +1614,9 @@ struct FamObjective : Family
     SET_NORM, // normalisation on / off / the same again + set_up
     SET_GEOM, // set_up for the other (or the same) target geometry
     SET_SYM,  // other (or the same) symmetry switches of the matrix + set_up
+    INVAL_GRAD, // an invalidating setter on the ProjDataInfo shared by data, projectors and matrix (same value), then at once the gradient
+    INVAL_HESS, // ... the Hessian product
+    INVAL_SET_UP, // ... set_up (the sensitivities are the first use)
     N
   };
   World w;
@@ -1230,7 +1625,7 @@ struct FamObjective : Family
   shared_ptr<target_type> targets[2], targets2[2], dir_ims[2];
   const std::vector<int>& weights() const override
   {
-    static const std::vector<int> w{ VALUE, GRAD, GRADPLUS, SENS, HESS, HESS_APPROX, PAIR_BACK, GRAD2, HESS2, GRAD, HESS, SET_UP, CLEAR_CACHE, SET_NSUB, SET_DATA, SET_ADD, SET_NORM, SET_GEOM, SET_SYM, SET_UP, CLEAR_CACHE, SET_GEOM };
+    static const std::vector<int> w{ VALUE, GRAD, GRADPLUS, SENS, HESS, HESS_APPROX, PAIR_BACK, GRAD2, HESS2, INVAL_GRAD, INVAL_HESS, SET_UP, CLEAR_CACHE, SET_NSUB, SET_DATA, SET_ADD, SET_NORM, SET_GEOM, SET_SYM, INVAL_SET_UP, CLEAR_CACHE, SET_GEOM, INVAL_GRAD, INVAL_HESS };
     return w;
   }
   FamObjective(const json& c, const std::string& dir, const Settings* o)
@@ -1259,6 +1654,7 @@ struct FamObjective : Family
       case GRAD:
       case GRAD2:
       case GRADPLUS:
+      case INVAL_GRAD:
         return F_RESULT | F_IMPLICIT | F_BP;
       case SENS:
         return F_RESULT;
@@ -1266,6 +1662,7 @@ struct FamObjective : Family
       case HESS2:
       case HESS_APPROX:
       case PAIR_BACK:
+      case INVAL_HESS:
         return F_RESULT | F_BP;
       case CLEAR_CACHE:
         return 0;
@@ -1280,7 +1677,9 @@ struct FamObjective : Family
                                "set_up", "clear_cache", "set_num_subsets + set_up", "back_project with the objective function's projector pair",
                                "compute_sub_gradient", "accumulate_sub_Hessian_times_input",
                                "set_proj_data_sptr / set_projector_pair_sptr (the same again) + set_up", "set_additive_proj_data_sptr + set_up",
-                               "set_normalisation_sptr + set_up", "set_up for the other target geometry", "symmetry switches + set_up" };
+                               "set_normalisation_sptr + set_up", "set_up for the other target geometry", "symmetry switches + set_up",
+                               "invalidating setter on the shared ProjDataInfo + compute_sub_gradient", "invalidating setter on the shared ProjDataInfo + accumulate_sub_Hessian_times_input",
+                               "invalidating setter on the shared ProjDataInfo + set_up" };
     return n[code];
   }
   void do_set_up()
@@ -1294,6 +1693,8 @@ struct FamObjective : Family
     const shared_ptr<target_type>& target = targets[st.geom];
     const target_type& cur = a % 2 ? *targets2[st.geom] : *target;
     const target_type& dir_im = *dir_ims[st.geom];
+    if (code == INVAL_GRAD || code == INVAL_HESS || code == INVAL_SET_UP)
+      stats().count(cat("invalidating setter before an objective-function step: ", invalidate_tables(*w.pdi, b / 64, b)));
     switch (code)
       {
       case VALUE:
@@ -1301,6 +1702,7 @@ struct FamObjective : Family
         break;
       case GRAD:
       case GRAD2:
+      case INVAL_GRAD:
         {
           shared_ptr<target_type> g(target->get_empty_copy());
           obj->compute_sub_gradient(*g, cur, subset);
@@ -1319,6 +1721,7 @@ struct FamObjective : Family
         break;
       case HESS:
       case HESS2:
+      case INVAL_HESS:
         {
           shared_ptr<target_type> r(target->get_empty_copy());
           obj->accumulate_sub_Hessian_times_input(*r, cur, dir_im, subset);
@@ -1396,6 +1799,8 @@ struct FamTables : Family
     COPY,             // the look-ups continue on a copy (clone) of the used object (its tables may be built or re-armed)
     TOGGLE_SPACING,   // set_ring_spacing(twice / once the scanner's): the tables have to be rebuilt with other contents
     REDUCE_SEGMENTS,  // reduce_segment_range(min+1, max-1) (once, if there are >= 3 segments)
+    INVAL_QUERY_COPIES, // an invalidating setter (same value), then look-ups by threads while other threads copy the object
+    QUERY_COPIES,       // look-ups while other threads copy the object (tables built or not, whatever the history left)
     N
   };
   Settings st;
@@ -1413,7 +1818,7 @@ struct FamTables : Family
   ProjDataInfoCylindrical& cyl() { return dynamic_cast<ProjDataInfoCylindrical&>(*pdi); }
   const std::vector<int>& weights() const override
   {
-    static const std::vector<int> w{ QUERY, QUERY_TABLES_FIRST, QUERY, QUERY_TABLES_FIRST, QUERY, QUERY_TABLES_FIRST, REARM, REARM, REARM_SAME_VALUE, REARM_SAME_VALUE, COPY, TOGGLE_SPACING, REDUCE_SEGMENTS };
+    static const std::vector<int> w{ QUERY, QUERY_TABLES_FIRST, QUERY, QUERY_TABLES_FIRST, INVAL_QUERY_COPIES, INVAL_QUERY_COPIES, QUERY_COPIES, REARM, REARM, REARM_SAME_VALUE, REARM_SAME_VALUE, COPY, TOGGLE_SPACING, REDUCE_SEGMENTS, INVAL_QUERY_COPIES };
     return w;
   }
   void apply_spacing() { cyl().set_ring_spacing((st.tb_state & 1) ? 2 * spacing0 : spacing0); }
@@ -1424,8 +1829,10 @@ struct FamTables : Family
     pdi->reduce_segment_range(pdi->get_min_segment_num() + 1, pdi->get_max_segment_num() - 1);
     return true;
   }
+  json pdi_json;
   FamTables(const json& c, const Settings* o)
-      : st(o ? *o : Settings())
+      : st(o ? *o : Settings()),
+        pdi_json(c["pdi"])
   {
     sc = vg::make_scanner(c["scanner"]);
     adopt(vg::make_pdi(sc, c["pdi"]));
@@ -1437,12 +1844,15 @@ struct FamTables : Family
   }
   int num_codes() const override { return N; }
   int setup_code() const override { return REARM; }
-  int flags(int code) const override { return (code == QUERY || code == QUERY_TABLES_FIRST) ? F_RESULT : 0; }
+  int flags(int code) const override { return (code == QUERY || code == QUERY_TABLES_FIRST || code == INVAL_QUERY_COPIES || code == QUERY_COPIES) ? F_RESULT : 0; }
+  int result_code(int code) const override { return code; }
   const char* name(int code) const override
   {
     static const char* n[] = { "table look-ups", "set_ring_spacing (re-arms the lazy tables)", "table look-ups (coordinates first)",
                                "set_min/max_ring_difference / set_min/max_axial_pos_num with the current value (re-arms the lazy tables)",
-                               "look-ups continue on a clone", "set_ring_spacing(other value)", "reduce_segment_range" };
+                               "look-ups continue on a clone", "set_ring_spacing(other value)", "reduce_segment_range",
+                               "invalidating setter (same value) + table look-ups while other threads copy the object",
+                               "table look-ups while other threads copy the object" };
     return n[code];
   }
   void exec(int code, int a, int b, std::vector<double>& out) override
@@ -1474,6 +1884,23 @@ struct FamTables : Family
         }
       case COPY:
         adopt(shared_ptr<ProjDataInfo>(pdi->clone()));
+        break;
+      case INVAL_QUERY_COPIES:
+      case QUERY_COPIES:
+        if (code == INVAL_QUERY_COPIES)
+          stats().count(cat("invalidating setter before the table look-ups: ", invalidate_tables(*pdi, a, b)));
+        {
+          const std::function<shared_ptr<ProjDataInfo>()> factory = [&]() {
+            shared_ptr<ProjDataInfo> n = vg::make_pdi(sc, pdi_json);
+            if ((st.tb_state & 2) && n->get_num_segments() >= 3)
+              n->reduce_segment_range(n->get_min_segment_num() + 1, n->get_max_segment_num() - 1);
+            if (st.tb_state & 1)
+              dynamic_cast<ProjDataInfoCylindrical&>(*n).set_ring_spacing(2 * spacing0);
+            return n;
+          };
+          race_rounds<ProjDataInfoCylindricalNoArcCorr>(factory, *sc, 6 + b % 12, uint64_t(a) * 7919ULL + uint64_t(b), out);
+        }
+        query_tables_with_copies(pdi, p, *sc, (a / 7) % 2 == 0, uint64_t(a) * 1000003ULL + uint64_t(b), out);
         break;
       case TOGGLE_SPACING:
         st.tb_state ^= 1;
@@ -2377,6 +2804,11 @@ check_fresh(const json& c)
       if (blocks_lors_limited(c) && c["lors"].get<int>() > 1)
         stats().cls("BlocksOnCylindrical: one tangential LOR instead of two (known finding of C04, not a thread effect)");
     }
+  if (c.value("inval", 0) > 0 && workload <= 6)
+    stats().cls(cat("invalidating setter on the shared ProjDataInfo directly before the workload, family ", workload_family(workload),
+                    c.value("inval", 0) == 8 ? " (real segment reduction)" : ""));
+  if (workload == 6 && c.value("copies", false))
+    stats().cls(cat("workload 6: threads copy the object during the first look-ups", c.value("inval", 0) > 0 ? " after an invalidating setter" : ""));
   if (workload == 0 && c.value("fwd_out", 0) != 0)
     stats().cls(c.value("fwd_out", 0) == 1 ? "forward projection into a pre-filled ProjDataInMemory" : "forward projection into a file (ProjDataFromStream)");
   if (c.value("zeros", 0) != 0 && workload >= 1 && workload <= 5)
@@ -2430,6 +2862,8 @@ check(const json& c)
 std::string
 known_signature(const json& c)
 {
+  if (e2_exclusion_on() && c.value("workload", -1) == 6 && c.value("copies", false) && !c.value("prebuild", true))
+    return SIG_E2;
   if (!exclusions_on() || !is_history(c) || c.value("rewrite", true))
     return "";
   try
@@ -2580,6 +3014,13 @@ gen(Src& s, int size)
   c["fwd_out"] = workload == 0 ? int(s.pick(std::vector<int>{ 0, 1, 2, 2 })) : 0;
   // measured data with exact zeros (projector and projection-data objective workloads; see make_world)
   c["zeros"] = (workload >= 1 && workload <= 5) ? int(s.pick(std::vector<int>{ 0, 0, 0, 1, 1, 2 })) : 0;
+  // (12.9, /repo 66621e8da) an invalidating setter on the shared ProjDataInfo directly before the multi-threaded workload
+  // (1..7: same value; 8: a real reduction of the segment range when the data are made + reduce_segment_range(same) before
+  // the workload), before or after the set_up of the projectors; workload 6: threads that copy the object meanwhile
+  c["inval"] = (workload <= 6 && s.chance(2, 5)) ? int(s.range(1, 8)) : 0;
+  c["inval_first"] = s.coin();
+  c["copies"] = workload == 6 && s.chance(2, 3);
+  c["race_rounds"] = workload == 6 ? int(s.range(4, 30)) : 0;
   // the other geometry family: a BlocksOnCylindrical scanner, i.e. ProjDataInfoBlocksOnCylindricalNoArcCorr with the lazily
   // built tables of ProjDataInfoGenericNoArcCorr (own double-checked-locking guards, schedule points 3-6, 16-19) and the
   // crystal map of the Scanner, in the projector / objective-function workloads (fresh objects and histories) and in the
@@ -2740,6 +3181,51 @@ fixed_cases(int)
     t["threads"] = 9;
     t["fwd_out"] = 2;
     v.push_back(t);
+  }
+  // ---- (12.9) the scenario of test_proj_data_info_subsets (/repo 66621e8da), 16 threads, one fixed case per family
+  {
+    typedef FamTables T;
+    auto three_segments = [&](json& c) { // span 1, ring differences -1..1: segments -1, 0, 1
+      c["pdi"]["span"] = 1;
+      c["pdi"]["max_delta"] = 1;
+      c["intensity"] = 2;
+    };
+    // projector pair: subset by view + reduce_segment_range + set_up + forward projection of subset and full data (real reduction
+    // and same range), invalidating setters directly before forward projections into memory / a file and before back projections
+    add(1, { 16, 0 }, { { 16, 2, P::SUBSET_FWD, 2, 0 }, { 16, 2, P::INVAL_FWD, 0, 0 }, { 16, 2, P::SUBSET_FWD, 17, 0 }, { 16, 2, P::INVAL_BACK, 0, 64 },
+                        { 16, 2, P::INVAL_FWD, 6, 128 }, { 16, 2, P::INVAL_FWD, 1, 256 }, { 16, 2, P::INVAL_BACK, 0, 320 }, { 16, 2, P::SUBSET_FWD, 8, 0 } }, 0, 0, 0);
+    three_segments(v.back());
+    v.push_back(v.back());
+    v.back()["inval"] = 8; // the data's info really reduced before the projectors are set up
+    // objective function: gradient / Hessian / set_up (sensitivities) as first use after the setter
+    add(3, { 16, 1 }, { { 16, 2, O::INVAL_GRAD, 0, 0 }, { 16, 2, O::INVAL_HESS, 0, 128 }, { 16, 2, O::INVAL_SET_UP, 0, 64 }, { 16, 2, O::INVAL_GRAD, 1, 200 },
+                        { 16, 2, O::INVAL_SET_UP, 0, 320 }, { 16, 2, O::INVAL_HESS, 1, 0 } }, 2, 0, 0);
+    three_segments(v.back());
+    v.back()["inval"] = 8;
+    // tables: setter + look-ups while other threads copy the object, every setter once
+    add(6, { 16, 0 }, { { 16, 2, T::INVAL_QUERY_COPIES, 0, 0 }, { 16, 2, T::INVAL_QUERY_COPIES, 1, 1 }, { 16, 2, T::INVAL_QUERY_COPIES, 2, 2 }, { 16, 2, T::INVAL_QUERY_COPIES, 3, 0 },
+                        { 16, 2, T::INVAL_QUERY_COPIES, 4, 1 }, { 16, 2, T::INVAL_QUERY_COPIES, 5, 2 }, { 16, 2, T::REDUCE_SEGMENTS, 0, 0 }, { 16, 2, T::INVAL_QUERY_COPIES, 13, 0 },
+                        { 16, 2, T::COPY, 0, 0 }, { 16, 2, T::QUERY_COPIES, 7, 3 } }, 0, 0, 0);
+    three_segments(v.back());
+    // fresh objects in every repetition: forward projection of a whole data set (into memory / a file) and back projection,
+    // gradient, table look-ups with copies; setter before and after the set_up
+    json f = base;
+    three_segments(f);
+    f["hist"] = 0;
+    f["threads"] = 16;
+    f["reps"] = 6;
+    for (int k = 0; k < 6; ++k)
+      {
+        json g = f;
+        g["workload"] = std::vector<int>{ 0, 0, 1, 3, 6, 6 }[k];
+        g["inval"] = std::vector<int>{ 1, 8, 2, 1, 8, 5 }[k];
+        g["inval_first"] = k % 2 == 0;
+        g["fwd_out"] = k == 1 ? 2 : 0;
+        g["copies"] = true;
+        g["race_rounds"] = 40;
+        g["file_data"] = k == 2 ? 1 : 0;
+        v.push_back(g);
+      }
   }
   // ---- scatter simulation: the next frame / gate on the same object
   {
